@@ -3,13 +3,38 @@ use crate::common::*;
 use sentinel_core::api::EntryBuilder;
 use sentinel_core::base::{ConcurrencyStat, EntryStrongPtr, MetricEvent, ReadStat, TrafficType};
 use sentinel_core::utils::verif_clock;
-use sentinel_core::{flow, isolation, stat, system};
+use sentinel_core::{circuitbreaker, flow, hotspot, isolation, stat, system};
+use sentinel_core::base::Snapshot;
+use std::sync::Mutex;
 use std::collections::HashMap;
 use std::sync::Arc;
 
 pub struct Exec {
     pub case_no: u64,
     pub entries: HashMap<u64, EntryStrongPtr>,
+    pub events: Arc<Mutex<Vec<String>>>,
+}
+
+/// records every state-change notification
+struct Listener {
+    events: Arc<Mutex<Vec<String>>>,
+}
+fn snap_text(s: &Option<Arc<Snapshot>>) -> String {
+    match s {
+        Some(v) => snap_norm(&format!("{:?}", v)),
+        None => "-".into(),
+    }
+}
+impl circuitbreaker::StateChangeListener for Listener {
+    fn on_transform_to_closed(&self, prev: circuitbreaker::State, rule: Arc<circuitbreaker::Rule>) {
+        self.events.lock().unwrap().push(format!("{:?}>Closed:{}:-", prev, rule.id));
+    }
+    fn on_transform_to_open(&self, prev: circuitbreaker::State, rule: Arc<circuitbreaker::Rule>, snapshot: Option<Arc<Snapshot>>) {
+        self.events.lock().unwrap().push(format!("{:?}>Open:{}:{}", prev, rule.id, snap_text(&snapshot)));
+    }
+    fn on_transform_to_half_open(&self, prev: circuitbreaker::State, rule: Arc<circuitbreaker::Rule>) {
+        self.events.lock().unwrap().push(format!("{:?}>HalfOpen:{}:-", prev, rule.id));
+    }
 }
 
 pub fn clear_all_rules() {
@@ -27,7 +52,21 @@ impl Exec {
         verif_clock::enable(T0_NS + case_no * 3_600_000_000_000);
         sentinel_core::system_metric::verif::set_system_load(0.0);
         sentinel_core::system_metric::verif::set_cpu_usage(0.0);
-        Exec { case_no, entries: HashMap::new() }
+        let events = Arc::new(Mutex::new(Vec::new()));
+        circuitbreaker::clear_state_change_listeners();
+        circuitbreaker::register_state_change_listeners(vec![Arc::new(Listener { events: events.clone() })]);
+        Exec { case_no, entries: HashMap::new(), events }
+    }
+    /// " ev=a|b" for the notifications since the last call (empty string when none)
+    pub fn take_events(&self) -> String {
+        let mut e = self.events.lock().unwrap();
+        if e.is_empty() {
+            String::new()
+        } else {
+            let s = format!(" ev={}", e.join("|"));
+            e.clear();
+            s
+        }
     }
     pub fn res(&self, r: &str) -> String {
         format!("{}#{}", r, self.case_no)
@@ -60,13 +99,18 @@ impl CaseExec for Exec {
                 let mut rules = Vec::new();
                 for spec in op.list("rules") {
                     let p: Vec<&str> = spec.split(':').collect();
+                    // id:thr:ivl[:calc(d|w):ctl(r|t):period:cold:maxq]
+                    let g = |i: usize, d: &str| -> String { p.get(i).map(|x| x.to_string()).unwrap_or(d.to_string()) };
                     rules.push(Arc::new(flow::Rule {
                         id: p[0].to_string(),
                         resource: res.clone(),
                         threshold: parse_frac(p[1]),
                         stat_interval_ms: p[2].parse().unwrap(),
-                        calculate_strategy: flow::CalculateStrategy::Direct,
-                        control_strategy: flow::ControlStrategy::Reject,
+                        calculate_strategy: if g(3, "d") == "w" { flow::CalculateStrategy::WarmUp } else { flow::CalculateStrategy::Direct },
+                        control_strategy: if g(4, "r") == "t" { flow::ControlStrategy::Throttling } else { flow::ControlStrategy::Reject },
+                        warm_up_period_sec: g(5, "0").parse().unwrap(),
+                        warm_up_cold_factor: g(6, "0").parse().unwrap(),
+                        max_queueing_time_ms: g(7, "0").parse().unwrap(),
                         ..Default::default()
                     }));
                 }
@@ -119,25 +163,112 @@ impl CaseExec for Exec {
                 }
                 "ok".into()
             }
+            "hs.load" => {
+                let res = self.res(&op.s("res"));
+                let mut rules = Vec::new();
+                for spec in op.list("rules") {
+                    // id;metric(c|q);strategy(r|t);idx;key;thr;maxq;burst;dur;cap;k=v|k=v
+                    let p: Vec<&str> = spec.split(';').collect();
+                    let mut specific = HashMap::new();
+                    if p.len() > 10 && !p[10].is_empty() {
+                        for kv in p[10].split('|') {
+                            let (k, v) = kv.split_once('=').unwrap();
+                            specific.insert(k.to_string(), v.parse::<u64>().unwrap());
+                        }
+                    }
+                    rules.push(Arc::new(hotspot::Rule {
+                        id: p[0].to_string(),
+                        resource: res.clone(),
+                        metric_type: if p[1] == "c" { hotspot::MetricType::Concurrency } else { hotspot::MetricType::QPS },
+                        control_strategy: if p[2] == "t" { hotspot::ControlStrategy::Throttling } else { hotspot::ControlStrategy::Reject },
+                        param_index: p[3].parse().unwrap(),
+                        param_key: p[4].to_string(),
+                        threshold: p[5].parse().unwrap(),
+                        max_queueing_time_ms: p[6].parse().unwrap(),
+                        burst_count: p[7].parse().unwrap(),
+                        duration_in_sec: p[8].parse().unwrap(),
+                        params_max_capacity: p[9].parse().unwrap(),
+                        specific_items: specific,
+                    }));
+                }
+                let ret = hotspot::load_rules_of_resource(&res, rules);
+                let ids: Vec<String> =
+                    hotspot::get_traffic_controller_list_for(&res).iter().map(|c| c.rule().id.clone()).collect();
+                format!("ret={} ctrls={}", ret.map(|b| b.to_string()).unwrap_or("err".into()), ids.join(","))
+            }
+            "br.load" => {
+                let res = self.res(&op.s("res"));
+                let mut rules = Vec::new();
+                for spec in op.list("rules") {
+                    // id;strategy(s|r|c);retry;minreq;ivl;buckets;maxrt;thr
+                    let p: Vec<&str> = spec.split(';').collect();
+                    rules.push(Arc::new(circuitbreaker::Rule {
+                        id: p[0].to_string(),
+                        resource: res.clone(),
+                        strategy: match p[1] {
+                            "s" => circuitbreaker::BreakerStrategy::SlowRequestRatio,
+                            "r" => circuitbreaker::BreakerStrategy::ErrorRatio,
+                            _ => circuitbreaker::BreakerStrategy::ErrorCount,
+                        },
+                        retry_timeout_ms: p[2].parse().unwrap(),
+                        min_request_amount: p[3].parse().unwrap(),
+                        stat_interval_ms: p[4].parse().unwrap(),
+                        stat_sliding_window_bucket_count: p[5].parse().unwrap(),
+                        max_allowed_rt_ms: p[6].parse().unwrap(),
+                        threshold: parse_frac(p[7]),
+                    }));
+                }
+                let ret = circuitbreaker::load_rules_of_resource(&res, rules);
+                let ids: Vec<String> = circuitbreaker::get_breakers_of_resource(&res)
+                    .iter()
+                    .map(|b| b.bound_rule().id.clone())
+                    .collect();
+                format!("ret={} breakers={}{}", ret.map(|b| b.to_string()).unwrap_or("err".into()), ids.join(","), self.take_events())
+            }
+            "br.state" => {
+                let res = self.res(&op.s("res"));
+                let v: Vec<String> = circuitbreaker::get_breakers_of_resource(&res)
+                    .iter()
+                    .map(|b| format!("{}:{:?}", b.bound_rule().id, b.current_state()))
+                    .collect();
+                format!("states={}", v.join(","))
+            }
             "build" => {
                 let res = self.res(&op.s("res"));
                 let dir = if op.get("dir") == Some("in") { TrafficType::Inbound } else { TrafficType::Outbound };
-                let b = EntryBuilder::new(res).with_traffic_type(dir).with_batch_count(op.u_or("batch", 1) as u32);
-                match b.build() {
+                let mut b = EntryBuilder::new(res).with_traffic_type(dir).with_batch_count(op.u_or("batch", 1) as u32);
+                if op.get("args").is_some() {
+                    b = b.with_args(Some(op.list("args")));
+                }
+                if op.get("atts").is_some() {
+                    let mut m = HashMap::new();
+                    for kv in op.list("atts") {
+                        let (k, v) = kv.split_once(':').unwrap();
+                        m.insert(k.to_string(), v.to_string());
+                    }
+                    b = b.with_attachments(Some(m));
+                }
+                let t0 = verif_clock::now_ns().unwrap();
+                let r = b.build();
+                let dt = verif_clock::now_ns().unwrap() - t0;
+                match r {
                     Ok(e) => {
                         self.entries.insert(op.u("e"), e);
-                        "pass".into()
+                        format!("pass dt={}{}", dt, self.take_events())
                     }
                     Err(err) => {
                         let (ty, rule, snap) = parse_block_full(&err.to_string());
-                        format!("blocked type={} rule={} snap={}", ty, rule, snap_norm(&snap))
+                        format!("blocked type={} rule={} snap={} dt={}{}", ty, rule, snap_norm(&snap), dt, self.take_events())
                     }
                 }
             }
             "exit" => match self.entries.remove(&op.u("e")) {
                 Some(e) => {
+                    if op.u_or("err", 0) == 1 {
+                        e.set_err(sentinel_core::Error::msg("biz error"));
+                    }
                     e.exit();
-                    "ok".into()
+                    format!("ok{}", self.take_events())
                 }
                 None => "noentry".into(),
             },
@@ -172,5 +303,6 @@ impl CaseExec for Exec {
             }
         }
         clear_all_rules();
+        circuitbreaker::clear_state_change_listeners();
     }
 }
